@@ -23,10 +23,11 @@ LWT = 10
 Hang = W.Hang
 
 
-def _scenario(kind, nproc, ev, want, replaced=False):
+def _scenario(kind, nproc, ev, want, replaced=False, quota=0):
     w = W.World()
     with untraced():
-        p = w.make_pool(nproc, lost_worker_timeout=LWT)
+        p = w.make_pool(nproc, lost_worker_timeout=LWT, **({'maxtasksperchild': quota} if quota else {}))
+    rec = ':recycling-pool' if quota else ''
     if replaced:
         # one worker of the initial set has gone and been replaced before the work is submitted: the replacement is a worker
         # like any other (its consumed results are credited to it, it gets its sentinel)
@@ -72,6 +73,8 @@ def _scenario(kind, nproc, ev, want, replaced=False):
                 w.w_take(x)
             elif x.state == 'busy':
                 w.w_done(x)
+            elif x.state == 'draining':
+                w.w_try_recycle(x, True)         # reached its quota: leaves (its results consumed, or after the guard)
             else:
                 raise Prune()
         elif e == 2:
@@ -106,13 +109,15 @@ def _scenario(kind, nproc, ev, want, replaced=False):
         if polls[0] > 40:
             raise Hang()
         live = [x for x in p._pool if x.exitcode is None]
-        movable = [x for x in live if x.state in ('busy', 'leaving') or (x.state == 'idle' and p._inqueue.q)]
+        movable = [x for x in live if x.state in ('busy', 'leaving', 'draining') or (x.state == 'idle' and p._inqueue.q)]
         if movable:
             x = movable[nd.draw(0, 1) % len(movable)] if nd.left() > 0 else movable[0]
             if x.state == 'idle':
                 w.w_take(x)
             elif x.state == 'busy':
                 w.w_done(x)
+            elif x.state == 'draining':
+                w.w_try_recycle(x, True)
             else:
                 w.w_leave(x)
         w.now = w.now + 1
@@ -133,13 +138,15 @@ def _scenario(kind, nproc, ev, want, replaced=False):
                 w.w_done(proc)
             elif proc.state == 'leaving':
                 w.w_leave(proc)
+            elif proc.state == 'draining':
+                w.w_try_recycle(proc, True)
             else:
                 raise Hang()
     w.join_hook = on_join
     try:
         p.join()
     except Hang:
-        return fail('C07:J2:join-hangs:' + kind)
+        return fail('C07:J2:join-hangs:' + kind + rec)
     finally:
         p._outqueue._reader.idle_hook = None
         w.join_hook = None
@@ -149,9 +156,9 @@ def _scenario(kind, nproc, ev, want, replaced=False):
     for o in obs:
         o.observe()
         if o.lost:
-            return fail('C07:J2:job-failed-at-shutdown:' + kind)
+            return fail('C07:J2:job-failed-at-shutdown:' + kind + rec)
         if not o.complete():
-            return fail('C07:J2:job-unresolved-after-join:' + kind)
+            return fail('C07:J2:job-unresolved-after-join:' + kind + rec)
         got.extend(o.values())
     if sorted(got) != sorted(expect):
         return fail('C07:J2:results-differ:' + kind)
@@ -169,6 +176,18 @@ def h_close_join(ev: List[int]) -> bool:
     """
     try:
         return _scenario(KINDS[PART % 4], 1 + (PART // 4) % 2, ev, False, (PART // 8) % 2 == 1)
+    except Prune:
+        return True
+
+
+def h_close_join_recycling(ev: List[int]) -> bool:
+    """
+    pre: len(ev) == K + 12
+    post: _
+    """
+    # a pool that recycles its workers (per-child quota of 1) is closed with more jobs pending than its workers have quota left
+    try:
+        return _scenario('apply', 1 + PART % 2, ev, False, False, quota=1)
     except Prune:
         return True
 
